@@ -6,6 +6,7 @@ import (
 	"os"
 	"sort"
 	"strings"
+	"time"
 
 	"asherahverif/explore"
 )
@@ -44,11 +45,17 @@ func init() {
 	Checks["C04"] = &Check{Level: "model_checking", Run: CheckK("C04", []string{"enc", "ik-created", "C04.parent-sk-expired", "C04.parent-sk-expired-more-than-R"}), QuickBudget: 300, ThoroughBudget: 1800, ReplayOps: kReplay("C04")}
 	Checks["C05"] = &Check{Level: "model_checking", Run: CheckK("C05", []string{"C05.ik-revoked", "C05.ik-revoked-more-than-R", "C05.parent-sk-revoked", "C05.parent-sk-revoked-more-than-2R"}), QuickBudget: 300, ThoroughBudget: 1800, ReplayOps: kReplay("C05")}
 	Checks["C09"] = &Check{Level: "model_checking", Run: func(r *Report) {
+		if child := os.Getenv("VHARNESS_CHILD"); strings.HasPrefix(child, "C09s/") {
+			c09Schedules(r) // scenario child process: only that scenario
+			return
+		}
 		CheckK("C09", []string{"restart", "C09.nocache-op", "C09.bounded-cache-states"})(r)
 		rule := r.Rule
 		CheckF("C09", fFaults{ms: true, kms: true, aead: true, alloc: true})(r)
 		r.Level = "model_checking"
 		r.Rule = rule + " || PLUS fault space: " + r.Rule
+		c09Schedules(r)
+		r.Rule += " || PLUS the release accounting (nothing live after close, released exactly once, never touched after release, evicted sessions torn down once) at the end of every interleaving of the session-cache schedule harnesses of C16 (G1, G2b) and the two-holder eviction scenario of C08"
 	}, QuickBudget: 300, ThoroughBudget: 1800, ReplayOps: kReplay("C09"), ReplayBody: fReplayBody(fFaults{ms: true, kms: true, aead: true, alloc: true})}
 }
 
@@ -340,4 +347,50 @@ func RaceMain(prop string, n int) {
 		total += n
 	}
 	fmt.Printf("RACE-PASS property=%s scenarios=%d executions=%d panics=%d\n", prop, len(names), total, panics)
+}
+
+// c09Schedules runs the schedule harnesses in which evictions race with users, keeping only the
+// release-accounting failures (they belong to C09; the functional failures belong to C08 / C16).
+func c09Schedules(r *Report) {
+	accounting := func(sig string) bool {
+		for _, p := range []string{"leak-after", "released-twice", "use-after-destroy", "evicted-session-not-torn-down", "torn-down-twice", "threads-left-after-factory-close"} {
+			if strings.HasPrefix(sig, p) {
+				return true
+			}
+		}
+		return false
+	}
+	type item struct {
+		name string
+		body explore.Body
+	}
+	var items []item
+	for _, sc := range c16Scenarios(false) {
+		if strings.HasPrefix(sc.name, "G1-evict-while-held-slru") || strings.HasPrefix(sc.name, "G2b-churn") {
+			sc := sc
+			items = append(items, item{"C09s/" + sc.name, sc.body})
+		}
+	}
+	for _, sc := range c08Scenarios(false) {
+		if sc.name == "H6-session-cache-2holders" {
+			sc := sc
+			items = append(items, item{"C09s/" + sc.name, sc.body})
+		}
+	}
+	names := make([]string, len(items))
+	byName := map[string]explore.Body{}
+	for i, it := range items {
+		names[i] = it.name
+		byName[it.name] = it.body
+	}
+	bound := 1
+	if r.Thorough() {
+		bound = 2
+	}
+	r.RunScenarios(names, func(r *Report, name string) {
+		t0 := time.Now()
+		cfg := explore.Config{Name: name, Preemptions: bound, Deviations: 0, HBCache: true, Deadline: r.Deadline, MaxViolations: 5, SigFilter: accounting}
+		res := explore.Explore(cfg, byName[name])
+		r.AddExplore(res, fmt.Sprintf("preemption bound %d", bound), time.Since(t0).Seconds())
+	})
 }
